@@ -452,7 +452,8 @@ class Mpo(MatrixProduct):
         self.symbolic_out_ops_list[i+1] = out_ops2
         self.symbolic_out_ops_list[i+2] = out_ops3
         self.model = new_model
-        self.qn[i+1] = qn
+        # bond labels are arrays of shape (bond dimension, number of quantum numbers) like everywhere else
+        self.qn[i+1] = np.array(qn).reshape(len(qn), -1)
 
         for impo, mo in zip([i, j], [mo1, mo2]):
             self[impo] = symbolic_mo_to_numeric_mo(new_model.basis[impo], mo, self.dtype)
